@@ -39,6 +39,8 @@ def gen_scenarios(seed, tier):
     for i in range(n):
         if i % 3 == 2:
             yield gen_nested(rng, i)
+        elif i % 12 == 1:
+            yield gen_blocking(rng, i)
         else:
             d = sc.gen_stack(rng, i, ops=("submit", "cancel", "addcb", "result", "shutdown", "sleep"), tail=(20.0,), shutdown_p=0.12)
             for lay in d["layers"]:
@@ -46,6 +48,29 @@ def gen_scenarios(seed, tier):
                     lay[1]["block"] = False
             d["family"] = "stack"
             yield d
+
+
+def gen_blocking(rng, i):
+    """stacks containing a ThrottleExecutor in blocking mode: its submit() parks the caller on an event while the caller holds the
+    gates (and, for the retry submit thread, the locks) of the layers above"""
+    d = sc.gen_stack(rng, i, ops=("submit", "submit", "addcb", "result", "sleep"), tail=(30.0,), shutdown_p=0.0, max_layers=3,
+                     bases=("simsync", "libsync", "simpool1", "simpool2"))
+    th = ["throttle", {"count": rng.choice([1, 1, 2]), "block": True}]
+    lays = [l for l in d["layers"] if l[0] != "throttle"]
+    lays.insert(rng.randint(0, len(lays)), th)
+    if rng.random() < 0.6 and not any(l[0] == "retry" for l in lays):
+        lays.append(["retry", {"max_attempts": rng.choice([2, 3]), "sleep": 1.0, "exponent": 1.0, "max_sleep": 3.0, "exception_base": ["E0"]}])
+    d["layers"] = lays
+    d["family"] = "blocking"
+    return d
+
+
+def retry_over_blocking_throttle(desc):
+    kinds = [(l[0], bool(l[1].get("block"))) for l in desc["layers"]]
+    for i, (k, b) in enumerate(kinds):
+        if k == "throttle" and b and any(k2 == "retry" for (k2, _) in kinds[i + 1:]):
+            return True
+    return False
 
 
 def gen_nested(rng, i):
@@ -92,6 +117,13 @@ def run_one(desc):
         for h in hits:
             if h["sig"] == "C04/deadlock:lock-wait":
                 h["sig"] = "C04/deadlock:nested-submit:retry-over-inline-delegate"
+    if retry_over_blocking_throttle(desc):
+        # the retry submit thread is parked in the blocking throttle's submit() holding the retry executor's lock; the throttle's
+        # hand-over thread, which alone can make room, finds the delegate future already done (inline delegate, or a pool that was
+        # quicker) and so runs the retry layer's done-callback itself, which needs that lock
+        for h in hits:
+            if h["sig"] == "C04/deadlock:lock-wait":
+                h["sig"] = "C04/deadlock:retry-over-blocking-throttle"
     # client threads stuck for ever inside a nested submit
     if s.end_reason == "idle" and not ctx.completed:
         pend = {}
